@@ -63,7 +63,7 @@ class ParamsGenerator:
     Raises:
       RuntimeError: If the calibration dataset is required but not provided.
     """
-    if model_recipe_manager.need_calibration() and not model_qsvs:
+    if model_recipe_manager.need_calibration() and model_qsvs is None:
       raise RuntimeError(
           'Model quantization statistics values (QSVs) are required for the'
           ' input recipe. This can be obtained by running calibration on sample'
